@@ -120,6 +120,27 @@ Check C14_spec_is_generic :
   (forall s, meta_ok D s (init s)) ->
   forall nodes ls st,
   srun D ST ns (sinit init nodes) ls = Some st -> greach ST init (s_g st).
+Check C14_evicted_recovers :
+  forall (D : schema) (ST : nat -> stmt) (ns : nat) (init : nat -> meta),
+  (forall s v v', mid_of D s v = mid_of D s v' -> cols_of D s v = cols_of D s v') ->
+  (forall s v, mid_of D s v <> []) ->
+  (forall s s', s_id (ST s) = s_id (ST s') -> s = s') ->
+  (forall s s', s_text (ST s) = s_text (ST s') -> s = s') ->
+  (forall s, meta_ok D s (init s)) ->
+  forall nodes ls st c a m s p0 p1 p,
+  srun D ST ns (sinit init nodes) ls = Some st ->
+  let nd := s_nodes st (s_route st c) in
+  let k := g_calls (s_g st) c in
+  stmt_of_id ST ns (s_id (ST s)) = Some s -> stmt_of_text ST ns (s_text (ST s)) = Some s ->
+  sid D s 0 = s_id (ST s) ->
+  k_x k = Some a -> xa_stmt a = s -> k_st k = CS_exec1 a m ->
+  s_out st c = Some (Q_execute (mk_exec_frame (ST s) (k_ext k) a m)) -> s_inbox st c = None ->
+  k_ext k = n_ext nd ->
+  n_prep nd s = false -> n_salt nd s = 0 -> cols_of D s (n_ver nd s) <> [] ->
+  exists st' u,
+    srun D ST ns st [SL_serve c p0; SL_recv c; SL_serve c p1; SL_recv c; SL_tick c; SL_serve c p; SL_recv c] = Some st' /\
+    k_st (g_calls (s_g st') c) = CS_done (O_rows u (p_paging p) (p_nrows p) (p_cells p)) /\
+    ((k_ext k = true \/ xa_use_cached a = false) -> m_cols u = cols_of D s (n_ver nd s)).
 Check C14_accept_sound :
   forall ST tr st c c' st',
   g_accept ST st c tr = (c', V_ok st') ->
@@ -140,5 +161,6 @@ Print Assumptions C14_frame_presents_id.
 Print Assumptions C14_never_skip_with_empty.
 Print Assumptions C14_faithful.
 Print Assumptions C14_spec_is_generic.
+Print Assumptions C14_evicted_recovers.
 Print Assumptions C14_accept_sound.
 Print Assumptions C14_spec_accept_sound.
